@@ -16,7 +16,8 @@
 //!       po=<k>|x<k> mss=<v|-> ws=<v|-> sackp=<0|1> ts=<val:ecr|->
 //!       one peer segment (valid checksums) handed to Interface::poll_ingress_single; payload byte i is
 //!       peer_byte(k+i) = (7(k+i)+3) mod 253, or 255 - that for the inconsistent variant x<k>
-//!   poll t=<ms> b=<k|->          Interface::poll with a device that accepts k more frames (- = unlimited)
+//!   poll t=<ms> b=<k|->          Interface::poll with a device that accepts k more frames (- = unlimited;
+//!                                if more than 20000 frames come out of one poll: `ret LIVELOCK`, case ends)
 //! App bytes are never transmitted in the case: `send n` writes app bytes off.. off+n, byte i = i mod 251,
 //! off = number of bytes accepted so far.
 //! Observations after every event:
@@ -38,6 +39,7 @@ use svh::*;
 pub const LOCAL: [u8; 4] = [10, 0, 0, 1];
 pub const PEER: [u8; 4] = [10, 0, 0, 2];
 const M32: i64 = 1 << 32;
+pub const POLL_FRAME_LIMIT: usize = 20000;
 
 static TSVAL: AtomicU32 = AtomicU32::new(0);
 fn tsgen() -> u32 {
@@ -177,6 +179,7 @@ pub struct Step {
     pub ret: String,
     pub data: Vec<u8>,
     pub panicked: bool,
+    pub livelock: bool,
 }
 
 /// The implementation under test: Interface + QDev + one tcp socket.
@@ -450,10 +453,21 @@ impl Sim {
             "poll" => {
                 self.now_ms = opt_i(kv(&toks, "t")).unwrap_or(self.now_ms);
                 self.set_ts();
-                self.dev.tx_budget = opt_i(kv(&toks, "b")).map(|b| b as usize);
+                let b = opt_i(kv(&toks, "b")).map(|b| b as usize);
+                // "unlimited" = POLL_FRAME_LIMIT frames: Interface::poll loops until no socket emits, so a
+                // socket that always has something to send would never return (reported as LIVELOCK)
+                self.dev.tx_budget = Some(b.unwrap_or(POLL_FRAME_LIMIT));
                 let now = self.now();
                 let _ = self.iface.poll(now, &mut self.dev, &mut self.sockets);
+                let exhausted = self.dev.tx_budget == Some(0);
                 self.dev.tx_budget = None;
+                if b.is_none() && exhausted {
+                    self.dev.drain_tx();
+                    self.dead = true;
+                    out.lines.push("ret LIVELOCK".into());
+                    out.livelock = true;
+                    return;
+                }
                 self.drain(out);
             }
             x => panic!("bad event {}", x),
@@ -462,7 +476,7 @@ impl Sim {
 
     /// Apply one event; observation lines in `lines`.
     pub fn step(&mut self, line: &str) -> Step {
-        let mut out = Step { lines: vec![], txs: vec![], ret: String::new(), data: vec![], panicked: false };
+        let mut out = Step { lines: vec![], txs: vec![], ret: String::new(), data: vec![], panicked: false, livelock: false };
         if self.dead {
             out.lines.push("dead".into());
             return out;
@@ -472,6 +486,9 @@ impl Sim {
             self.dead = true;
             out.panicked = true;
             out.lines.push("ret PANIC".into());
+            return out;
+        }
+        if out.livelock {
             return out;
         }
         let is_api = !(line.starts_with("seg") || line.starts_with("poll"));
